@@ -99,10 +99,11 @@ CHECKS['C02'] = dict(level='model_checking', ref='DESIGN.md 3.7, 6 (C02)',
    text='KeySpace.tla states the documented equality rule (DocEq) and transcribes Disk.put and SQLite equality of the (key, raw) columns (DbEq); TLC evaluates NoAliasing (DbEq => DocEq) and EqualKeysOneEntry (DocEq => DbEq, minus the listed deviation) over all ordered pairs of a universe of 52 keys (text/bytes with equal content, ints at and beyond the 64-bit boundaries, floats incl. -0.0, 2**53, 2**63, inf, subnormal, bool, None, tuples, frozenset, and the bytes equal to the pickles of other keys). '
         'Conformance: the same pairs through a real Cache (set k1; set k2; len, get, iteration in insertion and sorted order both directions, pop of the second key) for each pickle protocol, plus sorted iteration across the 100-key page boundary with a bytes key and its pickled twin; judged by TLC (KeyTrace.tla).',
    technique='TLA+ key-space spec evaluated over all key pairs by TLC; pairwise conformance validated by TLC')
-CHECKS['C18'] = dict(level='exploration', ref='DESIGN.md 3.7, 6 (C18)',
-   text='Lifecycle events as no-ops of the reference model: random histories (as C03) with close / reopen with and without settings / pickle+unpickle / settings read-back at random points, and single operations performed by a forked child, a second thread or a fresh interpreter, are validated by TLC against CacheSeqTrace (every handle acts on the one CacheOps state; settings come back from the directory). '
+CHECKS['C18'] = dict(level='model_checking', ref='DESIGN.md 3.7, 6 (C18)',
+   text='Design level: Lifecycle.tla models handles on one directory (stored settings incl. the serializer\'s own parameters, items; per handle the cached settings, serializer class, connection and owning process) with create-with-arguments, open, open while the database is busy, close, pickle, fork and use; TLC checks SettingsComeBack, SameCodec, OneContents, UsedConnectionIsOwn; a busy database read as "new directory", pickling that forgets the serializer class and a child using the inherited connection must fail. '
+        'Lifecycle events as no-ops of the reference model: random histories (as C03) with close / reopen with and without settings / pickle+unpickle / settings read-back at random points, a handle opened while the database is locked for a moment at its n-th statement (every n), and single operations performed by a forked child, a second thread or a fresh interpreter, are validated by TLC against CacheSeqTrace (every handle acts on the one CacheOps state; settings come back from the directory). '
         'Format stability: a reference directory written once by the pinned version (every key representation x value mode, Disk and JSONDisk with a custom disk setting, non-default settings, a 3-shard FanoutCache with Deque and Index, a Deque, an Index) is committed with the digests of everything readable from it; the current tree reads a scratch copy and TLC compares (FixtureTrace.tla); shard routing is compared with a recorded table in C13.',
-   technique='trace validation by TLC with lifecycle events as model no-ops; golden reference directory compared as a trace')
+   technique='TLA+ lifecycle model checked by TLC; trace validation by TLC with lifecycle events as model no-ops; golden reference directory compared as a trace')
 NOTES = {'C18': SEQ_NOTE + ' The format part is a golden-file comparison (the only way to see changes that orphan existing caches); Deque/Index lifecycle is in C11/C12.', 'C02': 'Exact numeric identities of the universe are computed with rational arithmetic by the harness (TLC integers are 32-bit). NaN is outside the key domain.', 'C01': 'Values INSIDE an abstract case are sampled, not enumerated; equality is structural with NaN = NaN and signed zero / exact type distinguished. The read-handle accessor is applied to binary values only; JSONDisk to JSON-representable values.', 'C17': 'Trusted: the observer (plain SQL + os.walk), TLC. Damage combinations beyond pairs are sampled.', 'C16': SEQ_NOTE, 'C20': CONC_NOTE + ' Start times are rounded outwards to 1/4000 s (sound for the bound); a virtual sleep advances time by at least 1e-6 s.', 'C15': CONC_NOTE + ' Contenders in separate processes only in the fork scenario.', 'C19': SEQ_NOTE + ' Return values the contract leaves open (set, delete_many, clear, delete of an expired item) are not compared.', 'C13': SEQ_NOTE + ' Aggregate operations under lock timeouts (FanoutCache._remove resuming after Timeout) are only covered with one shard (C14).', 'C11': CONC_NOTE, 'C12': CONC_NOTE + '', 'C14': CONC_NOTE, 'C07': 'Trusted: SQLite atomic commit / WAL recovery and release of the write lock on process death; kill points are the boundary events of the victim (before each statement, file create/write/close/remove, directory create/remove); the lazy cull of writes is switched off in kill workloads (not observable per call). Deque/Index workloads are killed in C11/C12.', 'C08': CONC_NOTE + ' Faults are not injected into COMMIT/ROLLBACK (SQLite atomic commit trusted) nor into file removal (removing an existing file is assumed to succeed).', 'C05': CONC_NOTE, 'C06': CONC_NOTE, 'C03': SEQ_NOTE, 'C04': SEQ_NOTE, 'C09': SEQ_NOTE, 'C10': SEQ_NOTE}
 
 checks = []
